@@ -19,6 +19,7 @@ func init() { h.Register("C02", run) }
 type row struct {
 	N uint   `json:"n"`
 	R []uint `json:"r"`
+	V string `json:"v"` // how the thresholds were made: "value" (Go constant) or "text" (decoded, as a voteproof / params carry them)
 }
 
 // vh C02 record --from A --to B [--extra K] --out f   (extra: K seeded n in 1..100000 + multiples of 100)
@@ -47,19 +48,26 @@ func run(args []string) error {
 	}
 	sort.Slice(list, func(a, b int) bool { return list[a] < list[b] })
 	// thresholds both ways a configuration can create them
+	// "text": the way a threshold reaches a node in a voteproof or in the parameters (MarshalText of the
+	// sender, UnmarshalText of the receiver); a decoder that moves the value changes the required count
+	// just as the arithmetic would, so these thresholds get their own table rows.
 	ths := make([]base.Threshold, 491)
+	tths := make([]base.Threshold, 491)
 	for k := 0; k < 491; k++ {
 		t10 := 510 + k
 		ths[k] = base.Threshold(float64(t10) / 10)
-		var u base.Threshold
-		if err := u.UnmarshalText([]byte(fmt.Sprintf("%d.%d", t10/10, t10%10))); err != nil {
-			return err
-		}
-		if u != ths[k] {
-			return fmt.Errorf("threshold %d: parsed %v != computed %v", t10, u, ths[k])
-		}
 		if err := ths[k].IsValid(nil); err != nil {
 			return err
+		}
+		b, err := ths[k].MarshalText()
+		if err != nil {
+			return err
+		}
+		if k%2 == 1 { // both spellings a text can have
+			b = []byte(fmt.Sprintf("%d.%d", t10/10, t10%10))
+		}
+		if err := tths[k].UnmarshalText(b); err != nil {
+			return fmt.Errorf("threshold %d: text %q does not decode: %w", t10, b, err)
 		}
 	}
 	out, err := h.NewOut(fl["out"])
@@ -68,11 +76,18 @@ func run(args []string) error {
 	}
 	defer out.Close()
 	for _, n := range list {
-		r := row{N: n, R: make([]uint, 491)}
+		r := row{N: n, R: make([]uint, 491), V: "value"}
 		for k := range ths {
 			r.R[k] = ths[k].Threshold(n)
 		}
 		out.Emit(r)
+		if n%100 == 0 || n%10 == 3 || n <= 300 {
+			r = row{N: n, R: make([]uint, 491), V: "text"}
+			for k := range tths {
+				r.R[k] = tths[k].Threshold(n)
+			}
+			out.Emit(r)
+		}
 	}
 	return nil
 }
